@@ -20,13 +20,15 @@ type SMFEvent struct {
 	Index int    `json:"index"`
 }
 
-func (e SMFEvent) IsMeta() bool      { return e.Bytes[0] == 0xFF }
-func (e SMFEvent) MetaType() byte    { return e.Bytes[1] }
-func (e SMFEvent) IsEOT() bool       { return e.IsMeta() && e.Bytes[1] == 0x2F }
-func (e SMFEvent) IsNoteOn() bool    { return e.Bytes[0]&0xF0 == 0x90 && e.Bytes[2] > 0 }
-func (e SMFEvent) IsNoteOff() bool   { return e.Bytes[0]&0xF0 == 0x80 || (e.Bytes[0]&0xF0 == 0x90 && e.Bytes[2] == 0) }
-func (e SMFEvent) Channel() byte     { return e.Bytes[0] & 0x0F }
-func (e SMFEvent) Key() byte         { return e.Bytes[1] }
+func (e SMFEvent) IsMeta() bool   { return e.Bytes[0] == 0xFF }
+func (e SMFEvent) MetaType() byte { return e.Bytes[1] }
+func (e SMFEvent) IsEOT() bool    { return e.IsMeta() && e.Bytes[1] == 0x2F }
+func (e SMFEvent) IsNoteOn() bool { return e.Bytes[0]&0xF0 == 0x90 && e.Bytes[2] > 0 }
+func (e SMFEvent) IsNoteOff() bool {
+	return e.Bytes[0]&0xF0 == 0x80 || (e.Bytes[0]&0xF0 == 0x90 && e.Bytes[2] == 0)
+}
+func (e SMFEvent) Channel() byte { return e.Bytes[0] & 0x0F }
+func (e SMFEvent) Key() byte     { return e.Bytes[1] }
 
 type SMFTrack struct {
 	Events  []SMFEvent `json:"events"`
